@@ -136,6 +136,32 @@ pub fn run(out: &mut Out, thorough: bool, seed: u64, _extra: &[String]) {
             let rs = base.scale() * ps;
             out.case(&format!("ckks_scale_ok {} {}", rs.to_bits(), tb), "scale-bound", || ((!refused) as u8).to_string());
         }
+        // the same rule at EVERY level, for ciphertext products and squares: the bound is the modulus of the OPERANDS' level (a product whose
+        // scale fits the first level but not the operands' level must be refused).  Scales are set directly (exact powers of two, product = 2^e).
+        {
+            let mut cur = base.clone();
+            loop {
+                let cd = s.ctx.get_context_data(cur.parms_id()).unwrap();
+                let (lvl, tbl) = (cd.chain_index(), cd.total_coeff_modulus_bit_count() as i32);
+                for e in [tbl - 2, tbl - 1, tbl, tbl + 1] {
+                    let (mut x, mut y) = (cur.clone(), cur.clone());
+                    x.set_scale(2f64.powi(e / 2)); y.set_scale(2f64.powi(e - e / 2));
+                    let rs = x.scale() * y.scale();
+                    let acc = std::panic::catch_unwind(std::panic::AssertUnwindSafe(|| { let _ = ev.multiply_new(&x, &y); })).is_ok();
+                    out.case(&format!("ckks_scale_ok {} {}", rs.to_bits(), tbl), &format!("scale-bound-mul-l{}-{}", lvl, if e >= tbl { "over" } else { "under" }), || (acc as u8).to_string());
+                    let mut z = cur.clone(); z.set_scale(2f64.powf(e as f64 / 2.0));
+                    let rq = z.scale() * z.scale();
+                    let accq = std::panic::catch_unwind(std::panic::AssertUnwindSafe(|| { let _ = ev.square_new(&z); })).is_ok();
+                    out.case(&format!("ckks_scale_ok {} {}", rq.to_bits(), tbl), &format!("scale-bound-sq-l{}-{}", lvl, if e >= tbl { "over" } else { "under" }), || (accq as u8).to_string());
+                    if let Ok(p) = std::panic::catch_unwind(std::panic::AssertUnwindSafe(|| enc.encode_f64_single_new(1.0, Some(*cur.parms_id()), 2f64.powi(e - sb)))) {
+                        let accp = std::panic::catch_unwind(std::panic::AssertUnwindSafe(|| { let _ = ev.multiply_plain_new(&cur, &p); })).is_ok();
+                        out.case(&format!("ckks_scale_ok {} {}", (cur.scale() * p.scale()).to_bits(), tbl), &format!("scale-bound-mulplain-l{}-{}", lvl, if e >= tbl { "over" } else { "under" }), || (accp as u8).to_string());
+                    }
+                }
+                if lvl == 0 { break; }
+                cur = match std::panic::catch_unwind(std::panic::AssertUnwindSafe(|| ev.mod_switch_to_next_new(&cur))) { Ok(c) => c, Err(_) => break };
+            }
+        }
         let _ = a;
     }
     deep_rescale(out, &mut r, thorough);
